@@ -212,6 +212,15 @@ Recv(s, c, src, isInit, res, info, now) ==
 \* how a pending handshake may look after it answered a datagram: unchanged, or restarted as responder
 PendAfterReply(q0, q1) == (q1.st = q0.st /\ q1.r = q0.r) \/ (q1.st = STAGE_PENG /\ q1.r = 0)
 
+\* ------------------------------------------------------------------ mode flags (GenericCloud::new)
+\* <<learning, broadcasting>>: a switch learns and floods; a hub floods and learns nothing; a router does neither; "normal"
+\* is a switch on a tap device and a router on a tun device
+ModeFlags(mode, dev) ==
+  CASE mode = "switch" -> <<TRUE, TRUE>>
+    [] mode = "hub" -> <<FALSE, TRUE>>
+    [] mode = "router" -> <<FALSE, FALSE>>
+    [] mode = "normal" -> IF dev = "tap" THEN <<TRUE, TRUE>> ELSE <<FALSE, FALSE>>
+
 \* ------------------------------------------------------------------ data plane (handle_interface_data, handle_payload_from)
 CacheOf(s, a) == {x \in s.cache : x.a = a}
 Covering(s, a) == {x \in s.cx : x.exp >= 0 /\ MatchesBytes(x.rb, x.rl, a)}
